@@ -42,7 +42,7 @@ structure NL0C (sends : Nat → Send) (nextSend : Nat) : Prop where
 
 def NL0 (s : St) : Prop := NL0C s.sends s.nextSend
 
-theorem NL0_init : NL0 init := by constructor <;> simp [init]
+theorem NL0_init (f p : Nat → Nat) : NL0 (initSz f p) := by constructor <;> simp [initSz]
 
 set_option maxHeartbeats 1000000 in
 theorem NL0_step (s s' : St) (a : Act) (h : NL0 s) (hs : step s a = some s') : NL0 s' := by
@@ -62,7 +62,7 @@ structure NL1 (s : St) : Prop where
   nl1 : s.nlog.map Prod.fst = (s.wlog ++ wWriting s.w).filter (fun x => (s.sends x).notif)
   nl2 : ∀ e ∈ s.nlog, e.1 < s.nextSend ∧ e.2 = (s.sends e.1).seq
 
-theorem NL1_init : NL1 init := by constructor <;> simp [init]
+theorem NL1_init (f p : Nat → Nat) : NL1 (initSz f p) := by constructor <;> simp [initSz]
 
 theorem wlog_lt (s : St) (hS : SInv s) (hW : WInv s) : ∀ x ∈ s.wlog ++ wWriting s.w, x < s.nextSend := by
   intro x hx
@@ -205,7 +205,7 @@ theorem NL1_step (s s' : St) (a : Act) (hS : SInv s) (hW : WInv s) (h : NL1 s)
 
 theorem NL1_reach (s : St) (hr : Reachable s) : NL1 s := by
   have : (SInv s ∧ WInv s) ∧ NL1 s := by
-    refine reachable_induct (P := fun s => (SInv s ∧ WInv s) ∧ NL1 s) ⟨⟨SInv_init, WInv_init⟩, NL1_init⟩ ?_ s hr
+    refine reachable_induct (P := fun s => (SInv s ∧ WInv s) ∧ NL1 s) (fun f p => ⟨⟨SInv_init f p, WInv_init f p⟩, NL1_init f p⟩) ?_ s hr
     intro s s' a _ ih hs
     exact ⟨⟨SInv_step s s' a ih.1.1 hs, WInv_step s s' a ih.1.1 ih.1.2 hs⟩,
       NL1_step s s' a ih.1.1 ih.1.2 ih.2 hs⟩
